@@ -3,3 +3,4 @@ import FcpProps.C02
 import FcpProps.C04
 import FcpProps.C09
 import FcpProps.C16
+import FcpProps.C19
